@@ -163,6 +163,10 @@ class Unit(Translator):
     def call_method(self, P, n, mexpr, obj, mid, args):
         callee = self.resolve_fn(mid) if mid else None
         is_arrow = bool(mexpr.get('isArrow'))
+        # node ids of two -ast-dump-filter dumps can collide: an id that resolves to a declaration of another name is not it
+        def _same_name(d): return d is None or not d.get('name') or not mexpr.get('name') or d.get('name') == mexpr.get('name')
+        if not _same_name(callee): callee = None; mid_collides = True
+        else: mid_collides = False
         if callee is None and mid and mid not in self.decl:
             ot0 = P.ty(obj)
             if is_arrow and ot0.kind == 'ptr': ot0 = ot0.to
@@ -179,6 +183,7 @@ class Unit(Translator):
             if cn in self.throwing_fns or self.opts.get('all_calls_may_throw'): P.note_throw()
             return self._wrap_ret(callee, '%s(%s)' % (cn, ', '.join(a)))
         md = self.decl.get(mid) if mid else None
+        if mid_collides or not _same_name(md): md = None
         if callee is None and md is None and mid:
             self._call_targs = None
             try:
@@ -205,7 +210,8 @@ class Unit(Translator):
             q = self.fn_qname(md)
             disp = ('dispatch_' if (md.get('virtual') or md.get('pure')) else 'extern_') + sanitize(short_ns(q))
             par = self.parent.get(md['id'])
-            if par is not None and par.get('kind') == 'FunctionTemplateDecl':
+            if par is not None and par.get('kind') == 'FunctionTemplateDecl' and par.get('name') == md.get('name'):
+                # (the name test: node ids of two dumps can collide, the parent of an id may belong to the other dump)
                 # a member function template whose instantiation is not in the dump (e.g. value::data<T>(), value::is<T>()):
                 # one bodiless function per instantiation, typed after this call expression and named after the explicit
                 # template arguments as written at the call site (read from the source range of the call)
